@@ -103,7 +103,7 @@ class World:
         self.leaves = {
             "T1": leaf("T1", st["lmin"], st["lmax"]),
             "T2": leaf("T2", 0, -1),
-            "T3": leaf("T3", 3, 3),
+            "T3": leaf("T3", 4, 4),
         }
         self._leaf = leaf
         self.leaves["X"] = LeafRelation(eng["it1"], build.tags(("a", "b")), RowSequence([{}]), name="X", min_rows=1, max_rows=1)
@@ -118,6 +118,7 @@ class World:
         "T3pa": ("T3", [{"o": "proj", "cols": ["a"]}]),
         "T3sel": ("T3", [{"o": "sel", "p": {"p": "cmp", "f": "eq", "l": {"x": "ref", "c": "a"}, "r": {"x": "lit", "v": 1}}}]),
         "T3dd": ("T3", [{"o": "dedup"}]),
+        "T3dp": ("T3", [{"o": "dedup"}, {"o": "proj", "cols": ["a"]}]),
         "T3ss": ("T3", [{"o": "sort", "terms": [{"e": {"x": "ref", "c": "a"}, "asc": True}, {"e": {"x": "ref", "c": "b"}, "asc": False}]},
                         {"o": "slice", "a": 0, "b": 2}]),
         "T3so": ("T3", [{"o": "sort", "terms": [{"e": {"x": "ref", "c": "a"}, "asc": True}, {"e": {"x": "ref", "c": "b"}, "asc": False}]}]),
@@ -134,7 +135,7 @@ class World:
             return self.sql.make_doomed_relation(frozenset(), ["statically empty, no columns"], name="Z0")
         if name == "I":
             return self.sql.make_join_identity_relation(name="I")
-        fresh = {"T2": lambda: self._leaf("T2", 0, -1, alias=True), "T3": lambda: self._leaf("T3", 3, 3, alias=True)}
+        fresh = {"T2": lambda: self._leaf("T2", 0, -1, alias=True), "T3": lambda: self._leaf("T3", 4, 4, alias=True)}
         if name == "T3cc":
             return fresh["T3"]().chain(fresh["T3"]())
         base, ops_ = self.OPERANDS[name]
